@@ -234,8 +234,11 @@ def handle_violation(rep, res, props, known, confirm_real_seeds=False):
     sig = res['viol']['sig']
     fresh = run_fresh(plan, props, known)
     if not fresh.get('viol') or fresh['viol']['sig'] != sig or fresh['digest'] != res['digest']:
-        raise core.HarnessError('violation did not reproduce identically in a fresh interpreter: '
-                                f'{res["viol"]} vs {fresh.get("viol")}')
+        # The failure depends on something outside the plan - in this code base that can only be object
+        # addresses (id() of a collected object re-used, id-ordered sets).  Never seen on the unchanged tree
+        # (selftest: same plan, many executions, identical transcripts).  Pin the addresses (ASLR off, same
+        # fresh-interpreter image) and look for an execution mode in which the plan fails every time.
+        return handle_address_dependent(rep, res, props, known)
     small, best = ddmin(plan, props, sig, known)
     if best is None:
         small, best = plan, res
@@ -269,6 +272,55 @@ def handle_violation(rep, res, props, known, confirm_real_seeds=False):
     return path
 
 
+def handle_address_dependent(rep, res, props, known):
+    from . import seams
+    plan, sig = res['plan'], res['viol']['sig']
+    modes = ([{'setarch': True}] if seams.setarch_available() else []) + [{'setarch': False}]
+    chosen, last = None, None
+    for mode in modes:
+        outcomes = []
+        for _ in range(3):
+            r = run_fresh(plan, props, known, setarch=mode['setarch'])
+            outcomes.append(bool(r.get('viol')) and r['viol']['sig'] == sig)
+            last = r if outcomes[-1] else last
+        if all(outcomes):
+            chosen = mode
+            break
+    os.makedirs(os.path.join(core.VERIF_DIR, 'replays'), exist_ok=True)
+    path = os.path.join(core.VERIF_DIR, 'replays', f'{rep.prop}-{rep.seed}-{plan["run"]}.json')
+    small = plan
+    if chosen is not None:
+        # minimise with fresh interpreters in the pinned mode (slower than forked children)
+        t0 = time.monotonic()
+        events = list(plan['events'])[:res['viol']['event'] + 1]
+        r = run_fresh(dict(plan, events=events), props, known, setarch=chosen['setarch'])
+        if not (r.get('viol') and r['viol']['sig'] == sig):
+            events = list(plan['events'])
+        i = 0
+        while i < len(events) and time.monotonic() - t0 < 180:
+            cand = events[:i] + events[i + 1:]
+            r = run_fresh(dict(plan, events=cand), props, known, setarch=chosen['setarch']) if cand else {}
+            if r.get('viol') and r['viol']['sig'] == sig:
+                events, last = cand, r
+            else:
+                i += 1
+        small = dict(plan, events=events)
+    with open(path, 'w', encoding='utf-8') as f:
+        json.dump({'property': rep.prop, 'oracle': res['viol']['oracle'], 'signature': sig,
+                   'verif_seed': rep.seed, 'run': plan['run'], 'hashseed': core.HARNESS_HASHSEED,
+                   'props': list(props), 'plan': small, 'setarch': bool(chosen and chosen['setarch']),
+                   'address_dependent': True,
+                   'reproduces': ('every time in a fresh interpreter' + (' under setarch -R' if chosen['setarch'] else ''))
+                   if chosen else 'not reliably: the failure depends on object addresses of the failing process',
+                   'original_events': len(plan['events']), 'minimised_events': len(small['events']),
+                   'violation': (last or res)['viol'], 'transcript_tail': (last or res).get('tail', [])},
+                  f, indent=1)
+        f.write('\n')
+    rep.extra.setdefault('address_dependent_violations', []).append({'run': plan['run'], 'sig': sig,
+                                                                     'pinned_mode': chosen})
+    return path
+
+
 def replay(path):
     with open(path, encoding='utf-8') as f:
         rp = json.load(f)
@@ -276,7 +328,7 @@ def replay(path):
         from . import world_xproc
         return world_xproc.replay(rp, path)
     res = run_fresh(rp['plan'], rp['props'], open_known(rp['property']) if False else [],
-                    hashseed=rp.get('hashseed', core.HARNESS_HASHSEED))
+                    hashseed=rp.get('hashseed', core.HARNESS_HASHSEED), setarch=bool(rp.get('setarch')))
     v = res.get('viol')
     if v and v['sig'] == rp['signature']:
         print(f"reproduced: {v['oracle']} at event {v['event']} ({v['kind']}): {v['detail'][:600]}")
